@@ -1238,5 +1238,5 @@ def run_check(prop, tier, seed, replay, t0):
         print("VIOLATION property=%s replay=%s %s%s" % (prop, rp, what.replace("\n", " ")[:300], "" if has_input else " no-failing-input-found"))
     if not violations:
         print("OK property=%s tier=%s evaluations=%d nontrivial=%d witnesses=%d obligations=%d/%d wall=%.1fs" %
-              (prop, tier, cov["evaluations"], cov["distinct_nontrivial"], len(wres), discharged, obligations, time.time() - t0))
+              (prop, tier, cov["evaluations"], cov["distinct_nontrivial"], len(wres), cov["discharged"], cov["obligations"], time.time() - t0))
     return 1 if violations else 0
